@@ -124,6 +124,7 @@ def eRejected (s : ESpace) : EOp → Prop
   | .set a p => ∃ e, agentSet s a p = .error e
   | .remove a => ∃ e, agentRemove s a = .error e
   | .iadd a v => ∃ e, agentIadd s a v = .error e
+  | .raw i p => ∃ e, rawWrite s i p = .error e
 
 /-- Corollary over histories (experimental): a rejected position assignment, a rejected `position += v` and a
     rejected `remove()` can be deleted from any history without changing the final state. -/
@@ -136,6 +137,7 @@ theorem C18_cont_exp_rejected_call_erasable (c : ECfg) (cap : Nat) (pre post : L
     | set a p => obtain ⟨e, he⟩ := h; simp [estep, he]
     | remove a => obtain ⟨e, he⟩ := h; simp [estep, he]
     | iadd a v => obtain ⟨e, he⟩ := h; simp [estep, he]
+    | raw i p => obtain ⟨e, he⟩ := h; simp [estep, he]
   simp only [erun, List.foldl_append, List.foldl_cons] at hs ⊢
   rw [hs]
 
